@@ -82,6 +82,7 @@ fn batches(t: Tier) -> Vec<Batch> {
         cross,
         Batch::new("chisq", t.pick(8, 32), 1),
         Batch::new("coverage", t.pick(32, 256), 2),
+        Batch { name: "known", runs: 1, chunk: 1, fresh_process: true },
     ]
 }
 
@@ -792,6 +793,24 @@ fn covcase(idx: u64, tier: Tier) -> Value {
 fn run(batch: &str, idx: u64, seed: u64, tier: Tier) -> RunOut {
     let mut out = RunOut::default();
     match batch {
+        "known" => {
+            // pinned witness of known finding F23, run in a child process (it taints the thread it runs on)
+            let exe = std::env::current_exe().unwrap();
+            let mut cmd = std::process::Command::new(exe);
+            cmd.arg("--child").arg("c10").arg("leak").arg("11").stdin(std::process::Stdio::null()).stderr(std::process::Stdio::null());
+            crate::coord::scrub_env(&mut cmd);
+            out.evals += 1;
+            if let Ok(o) = cmd.output() {
+                let text = String::from_utf8_lossy(&o.stdout).to_string();
+                if let Some(l) = text.lines().find(|l| l.ends_with("panicking after true")) {
+                    out.violation(
+                        "C10:failed-run-leaves-thread-panicking",
+                        format!("pinned witness (main panics while holding a Mutex and an RwLock guard, two threads contend for the mutex): {}", l),
+                        json!({"rerun": {"batch": "known", "idx": 0}}),
+                    );
+                }
+            }
+        }
         "crossproc" => run_crossproc(seed, &mut out),
         "chisq" => run_chisq(idx, tier, &mut out),
         "coverage" => run_coverage(idx, tier, &mut out),
